@@ -1178,6 +1178,11 @@ def _sample_point(st: State, img: np.ndarray, coords: List[Expr], mode: int, pad
         if mode == 1:
             idx = []
             for v, n in zip(conc, isz):
+                if abs((v % 1) - Fraction(1, 2)) < Fraction(1, 5000):
+                    # (near) tie between two voxels: torch decides it in float32 arithmetic of the coordinate pipeline -
+                    # which voxel is taken is not a fact about real numbers; the sample is an unknown value
+                    st.opaque_ops["grid_sampler(nearest, tie at a cell border)"] += 1
+                    return list(st.fresh((C,), "nearest-tie"))
                 # round half to even like nearbyint
                 r = round(v)
                 idx.append(r)
